@@ -49,8 +49,11 @@ RULE = (
 )
 ASSUMPTIONS = [
     "an operation is durable iff its WAL sequence number (position of its append, taken from the public "
-    "wal.stats.writes at invocation) is <= wal.synced_up_to at the crash; this is the library's own definition "
-    "(WriteAheadLog.crash keeps exactly these entries)",
+    "wal.stats.writes at invocation) is <= the highest wal.synced_up_to ever OBSERVED up to the crash (sampled after "
+    "every delivery; a completed sync stays completed, so the value read at crash time is deliberately not used), or "
+    "its put()/delete() generator returned under SyncEveryWrite (put_sync never syncs and does not count)",
+    "invariant at a hook: wal.synced_up_to never decreases between two observations (after every delivery, at the "
+    "crash, after crash+recovery); own oracle durable-watermark-decreased on component WriteAheadLog",
     "order between operations on one key is real time at the client boundary (completed before began); operations "
     "that overlap in simulated time may be applied in either order, so neither can 'overwrite' the other for the "
     "oracle; an operation not yet returned at the crash has not completed",
@@ -141,7 +144,9 @@ def _crash_at(case: dict, k: int, res: Result) -> None:
         res.count("crash_points_skipped")
         return
     crash_ns = sampler.now_ns
-    synced = wal.synced_up_to
+    # durability fact = the highest watermark ever OBSERVED (after every delivery), not the value at crash time
+    sampler.observe_wal(crash_ns, "at-crash")
+    synced = sampler.max_synced
     appended = wal.stats.writes
     recs = [dict(r) for r in hist.recs]
     flushes, compactions = list(sampler.flushes), list(sampler.compactions)
@@ -160,6 +165,9 @@ def _crash_at(case: dict, k: int, res: Result) -> None:
     res.count("crash_points_checked")
     res.count("events_monitored", k)
     res.count("flush_calls_installing_two_or_more_sstables", sampler.multi_install_events)
+    sampler.observe_wal(crash_ns, "across-crash-and-recovery")
+    res.count("watermark_observations", sampler.events + 2)
+    _report_watermark(res, sampler, flushes, f"crash after event {k}")
     # a crash that found nothing volatile (public return value of crash()) and no write in flight must not change
     # what any key reads: everything visible was in installed SSTables, the log may only replay what they contain
     if (
@@ -200,7 +208,8 @@ def _crash_at(case: dict, k: int, res: Result) -> None:
     writes: dict[str, list[dict]] = {}
     for r in recs:
         if r["op"] in ("put", "delete"):
-            r["durable"] = r["seq"] <= synced
+            # ... or, under SyncEveryWrite, the operation returned to its client (its own sync had completed)
+            r["durable"] = r["seq"] <= synced or (policy == "every" and r["t1"] is not None and not r.get("sync"))
             writes.setdefault(r["key"], []).append(r)
             if r["durable"]:
                 res.count("durable_ops_at_crash")
@@ -292,6 +301,22 @@ def _crash_at(case: dict, k: int, res: Result) -> None:
                 f"crash after event {k}: {key!r} = {got!r} after recovery, {state3[key]!r} after another crash()+recover_from_crash()",
                 {"k": k, "key": key},
             )
+
+
+def _report_watermark(res: Result, sampler, flushes: list[int], ctx: str) -> None:
+    """Invariant at a hook: wal.synced_up_to never decreases between two observations."""
+    for d in sampler.synced_decreases[:1]:
+        where = d["where"]
+        if where == "after-delivery":
+            where = "in-a-delivery-that-installed-a-flush" if d["t"] in flushes else "in-a-delivery-without-flush-install"
+        res.add(
+            "durable-watermark-decreased",
+            "WriteAheadLog",
+            where,
+            f"{ctx}: wal.synced_up_to went from {d['from']} to {d['to']} at t={d['t']}ns ({d['where']}); "
+            f"{len(sampler.synced_decreases)} decrease(s) in this run",
+            {"decreases": sampler.synced_decreases[:5]},
+        )
 
 
 def run_workload(case: dict) -> Result:
